@@ -483,5 +483,11 @@ class PipelineCompile(Unit):
 
 
 UNITS = [EngineSatisfiesConditions(), GetEngineClass(), GetEnginePipeline(), PipelineCompile()]
-LEVEL = "exploration"
+LEVEL = "other"
 EXPLANATION = __doc__
+TRUSTED = ["engine classes are opaque: is_compiler / supports / supports_compilation / resulting_problem_kind are pure class functions",
+           "is_compiler() implies inheritance from CompilerMixin (validated on the real registry in the bounded layer of C32)",
+           "every name in the preference list is registered (Factory constructor / add_engine)",
+           "CompilersPipeline.compile unit ASSUMES per stage: kind(result) <= resulting_problem_kind(kind(input)) (first sentence of C09: bounded layer only), "
+           "supports is downward closed, resulting_problem_kind is monotone (bounded layer)",
+           "the error-report locals of _get_engine_class (planners_features, x) are abstracted as opaque"]
